@@ -59,9 +59,24 @@ def inside(base, r):
 
 
 # ------------------------------------------------------ assumed os.path models --
+def join_fact(b, t):
+    """os.path.abspath(os.path.join(b, t)) (assumed, POSIX) for a normalised absolute b and a RELATIVE t (not absolute, no leading separator) whose
+    normpath does not climb (is not `..` and does not start with `../`): the result is b or lies below it (join keeps b, normalisation of a
+    non-climbing relative tail never removes a component of b).  Validated on the platform by the model-validation obligation."""
+    r, n = ABS(JOIN(b, t)), NORMPATH(t)
+    climbs = z3.Or(n == z3.StringVal(".."), z3.PrefixOf(z3.StringVal("../"), n))
+    below = z3.Or(r == b, z3.PrefixOf(z3.Concat(b, SEP), r), z3.And(z3.SuffixOf(SEP, b), z3.PrefixOf(b, r)))
+    return z3.Implies(z3.And(NORM(b), z3.Not(ISABS(t)), z3.Not(z3.PrefixOf(SEP, t)), z3.Not(climbs)), below)
+
+
 def m_abspath(ex, st, args, kwargs, node):
     p = args[0].t
     st.assume(NORM(ABS(p)))
+    try:
+        if z3.is_app(p) and p.decl().name() == "os_path_join" and p.num_args() == 2:
+            st.assume(join_fact(p.arg(0), p.arg(1)))
+    except Exception:  # noqa
+        pass
     return [(st, VStr(ABS(p)))]
 
 
@@ -71,6 +86,7 @@ def m_join(ex, st, args, kwargs, node):
 
 def m_splitdrive(ex, st, args, kwargs, node):
     p = args[0].t
+    st.assume(z3.Concat(DRIVE(p), TAIL(p)) == p)            # drive + tail == path (documented for every platform)
     return [(st, VTuple([VStr(DRIVE(p)), VStr(TAIL(p))]))]
 
 
@@ -819,7 +835,7 @@ def known_findings(kf, violations, repo, tier):
 
 
 MODEL_OID = "C09/replay::model-validation/bounded#round-7-os-models-agree-with-the-platform.BOUNDED"
-MODEL_BOUND = "dirname fact: 5 base directories x 40 member-name shapes (the z3 formula itself, evaluated on the platform's os.path); os.makedirs: parent / nested / existing cases in a scratch directory"
+MODEL_BOUND = "dirname fact and abspath-of-join fact: 5 base directories x 40 member-name shapes (the z3 formula itself, evaluated on the platform's os.path); os.makedirs: parent / nested / existing cases in a scratch directory"
 
 
 def model_validation(repo, tier):
@@ -848,6 +864,20 @@ def model_validation(repo, tier):
                 n += 1
                 if sol.check() != z3.unsat:
                     bad.append(f"dirname fact fails for base={base!r} path={pth!r} dirname={d!r}")
+                # join fact (the abspath-of-join model): same pinning, the formula itself
+                b_abs = os.path.abspath(base)
+                tgt = os.path.abspath(os.path.join(b_abs, nm))
+                dr, tl = os.path.splitdrive(nm)
+                sol = z3.Solver()
+                sol.set("timeout", 2000)
+                sol.add(ABS(JOIN(sv(b_abs), sv(nm))) == sv(tgt), NORMPATH(sv(nm)) == sv(os.path.normpath(nm)), ISABS(sv(nm)) == z3.BoolVal(os.path.isabs(nm)),
+                        NORM(sv(b_abs)) == z3.BoolVal(isnorm(b_abs)))
+                sol.add(z3.Not(join_fact(sv(b_abs), sv(nm))))
+                n += 1
+                if sol.check() != z3.unsat:
+                    bad.append(f"join fact fails for base={b_abs!r} name={nm!r} abspath(join)={tgt!r}")
+                if dr + tl != nm:
+                    bad.append(f"splitdrive fact fails for {nm!r}")
         root = tempfile.mkdtemp(prefix="c09_model_")
         try:
             priv = os.path.join(root, "private")
@@ -886,7 +916,7 @@ TRUSTED = ["a normalised absolute path equal to abspath(base) or prefixed by abs
            "the private directory exists while the reader writes into it: os.makedirs(p, exist_ok=True) creates only missing directories on the way to p, so for p "
            "inside the private directory everything it creates is inside, and for p = the parent of the private directory it creates nothing (round 7; validated natively: "
            "C09/replay::model-validation obligation)"]
-ASSUMED_MODELS = ["os.path.abspath/join/splitdrive/isabs/normpath (uninterpreted)", "os.path.commonprefix([a, b]) (character prefix; == a iff a is a prefix of b)",
+ASSUMED_MODELS = ["os.path.abspath/join/splitdrive/isabs/normpath (uninterpreted; splitdrive: drive + tail == path; abspath(join(b, t)) is b or lies below b when b is normalised absolute and t is relative with a non-climbing normpath: validated natively)", "os.path.commonprefix([a, b]) (character prefix; == a iff a is a prefix of b)",
                   "os.path.commonpath([a, b]) on normalised absolute paths (== a iff b is a or lies below a)",
                   "os.path.relpath(t, b) on normalised absolute paths (climbs with `..` iff t is neither b nor below b)", "os.sep / os.pardir / os.curdir (POSIX values)",
                   "os.path.dirname(p) of a normalised absolute path strictly below abspath(base) (is abspath(base) or lies below it; nothing assumed for abspath(base) itself)",
